@@ -59,7 +59,10 @@ func runC06(s *kernel.Sim) {
 	// loop takes it off the queue and is held before it asks the quota, a second
 	// request of the same priority arrives and enters the queue, the loop goes on
 	// (refused: the first one is put back); from there on as in profile 4
-	profile := tp.Choose(7)
+	// 7: another scripted opening - the quota of the window is spent, a request of the
+	// best priority waits at the head of the queue with two more behind it, and its TTL
+	// runs out less than one tick of the loop before the next window opens
+	profile := tp.Choose(8)
 	bgYield := profile >= 4
 	qMax := int64(tp.Range(1, 2))
 	qWin := tp.Range(1, 5)
@@ -81,6 +84,13 @@ func runC06(s *kernel.Sim) {
 	nArr := tp.Range(2, 10)
 	if profile == 6 && nArr < 4 {
 		nArr = 4
+	}
+	if profile == 7 {
+		qMax, qWin, qSize = 1, tp.Range(2, 4), int64(tp.Range(3, 4))
+		ttlS = tp.Range(1, qWin-1)
+		if nArr < 5 {
+			nArr = 5
+		}
 	}
 	cancelAt := -1
 	if tp.Chance(1, 4) {
@@ -221,7 +231,8 @@ func runC06(s *kernel.Sim) {
 		}
 	}
 	prios := []string{"p1", "p2", "p3", ""}
-	var like *c06req       // when set, the next arrival has the priority of this request
+	var like *c06req   // when set, the next arrival has the priority of this request
+	forceBest := false // when set, the next arrival is of the best priority group
 	startArrival := func() {
 		i := len(order)
 		r := &c06req{id: fmt.Sprintf("r%d", i)}
@@ -233,6 +244,9 @@ func runC06(s *kernel.Sim) {
 			}
 		} else if usePrio {
 			g := tp.Choose(len(prios))
+			if forceBest {
+				g = 0
+			}
 			if prios[g] != "" {
 				h["x-prio"] = prios[g]
 				r.prio = g + c06PrioBase
@@ -365,6 +379,72 @@ func runC06(s *kernel.Sim) {
 		}
 		forceBG = false
 		freeBG()
+	}
+	if profile == 7 {
+		runTask := func(r *c06req, until func() bool) {
+			for i := 0; i < 80 && !until() && r.task != nil && !r.task.Done(); i++ {
+				s.Resume(r.task)
+			}
+		}
+		freeBG := func() {
+			for i := 0; i < 400; i++ {
+				var bg *kernel.Task
+				for _, t := range s.ParkedTasks() {
+					if !t.Harness {
+						bg = t
+					}
+				}
+				if bg == nil {
+					return
+				}
+				s.Resume(bg)
+			}
+		}
+		jump := func(to time.Duration) {
+			if to > s.Now() {
+				advancing = true
+				s.SleepUntil(to)
+				advancing = false
+			}
+			freeBG()
+		}
+		// the window's only slot goes to a first request
+		startArrival()
+		z := order[0]
+		runTask(z, func() bool { return z.pushed })
+		for k := 0; k < 3 && !z.granted; k++ {
+			jump(s.Now() + tick)
+		}
+		runTask(z, func() bool { return z.done })
+		// the head of the queue arrives so that its TTL ends shortly before the window does
+		open := (s.Now()/W + 1) * W
+		lead := time.Duration(3+tp.Choose(95)) * time.Millisecond
+		if at := open - TTL - lead; at > s.Now() {
+			jump(at)
+			forceBest = true
+			startArrival()
+			forceBest = false
+			a := order[1]
+			runTask(a, func() bool { return a.pushed })
+			// the two behind it arrive late enough to live to see the window open
+			jump(s.Now() + lead + time.Duration(1+tp.Choose(300))*time.Millisecond)
+			for i := 2; i < 4; i++ {
+				s.Sleep(time.Microsecond)
+				startArrival()
+				x := order[i]
+				runTask(x, func() bool { return x.pushed })
+			}
+			freeBG()
+			if a.pushed && !a.granted {
+				// its TTL runs out, it returns, and its removal from the queue has run
+				jump(a.enqT + TTL + 2*time.Millisecond)
+				runTask(a, func() bool { return a.done })
+				freeBG()
+				if a.expired && s.Now() < open {
+					s.Probe("head_of_queue_expired_within_a_tick_of_the_window_opening")
+				}
+			}
+		}
 	}
 	for step := 0; step < maxSteps && !s.Failed(); step++ {
 		placeNow := false
